@@ -12,6 +12,7 @@ package influxql
 //@   safety C19 C13
 //@   frameprops C14 C17
 //@   modifies @ast
+//@   requires s != nil
 //@   ensures result1 == nil && len(result0) >= 1 && result0[0].Admin
 
 //@ func (*DropUserStatement).RequiredPrivileges
@@ -19,6 +20,7 @@ package influxql
 //@   safety C19 C13
 //@   frameprops C14 C17
 //@   modifies @ast
+//@   requires s != nil
 //@   ensures result1 == nil && len(result0) >= 1 && result0[0].Admin
 
 //@ func (*GrantStatement).RequiredPrivileges
@@ -26,6 +28,7 @@ package influxql
 //@   safety C19 C13
 //@   frameprops C14 C17
 //@   modifies @ast
+//@   requires s != nil
 //@   ensures result1 == nil && len(result0) >= 1 && result0[0].Admin
 
 //@ func (*GrantAdminStatement).RequiredPrivileges
@@ -33,6 +36,7 @@ package influxql
 //@   safety C19 C13
 //@   frameprops C14 C17
 //@   modifies @ast
+//@   requires s != nil
 //@   ensures result1 == nil && len(result0) >= 1 && result0[0].Admin
 
 //@ func (*RevokeStatement).RequiredPrivileges
@@ -40,6 +44,7 @@ package influxql
 //@   safety C19 C13
 //@   frameprops C14 C17
 //@   modifies @ast
+//@   requires s != nil
 //@   ensures result1 == nil && len(result0) >= 1 && result0[0].Admin
 
 //@ func (*RevokeAdminStatement).RequiredPrivileges
@@ -47,6 +52,7 @@ package influxql
 //@   safety C19 C13
 //@   frameprops C14 C17
 //@   modifies @ast
+//@   requires s != nil
 //@   ensures result1 == nil && len(result0) >= 1 && result0[0].Admin
 
 //@ func (*SetPasswordUserStatement).RequiredPrivileges
@@ -54,6 +60,7 @@ package influxql
 //@   safety C19 C13
 //@   frameprops C14 C17
 //@   modifies @ast
+//@   requires s != nil
 //@   ensures result1 == nil && len(result0) >= 1 && result0[0].Admin
 
 //@ func (*CreateDatabaseStatement).RequiredPrivileges
@@ -61,6 +68,7 @@ package influxql
 //@   safety C19 C13
 //@   frameprops C14 C17
 //@   modifies @ast
+//@   requires s != nil
 //@   ensures result1 == nil && len(result0) >= 1 && result0[0].Admin
 
 //@ func (*DropDatabaseStatement).RequiredPrivileges
@@ -68,6 +76,7 @@ package influxql
 //@   safety C19 C13
 //@   frameprops C14 C17
 //@   modifies @ast
+//@   requires s != nil
 //@   ensures result1 == nil && len(result0) >= 1 && result0[0].Admin
 
 //@ func (*CreateRetentionPolicyStatement).RequiredPrivileges
@@ -75,6 +84,7 @@ package influxql
 //@   safety C19 C13
 //@   frameprops C14 C17
 //@   modifies @ast
+//@   requires s != nil
 //@   ensures result1 == nil && len(result0) >= 1 && result0[0].Admin
 
 //@ func (*AlterRetentionPolicyStatement).RequiredPrivileges
@@ -82,6 +92,7 @@ package influxql
 //@   safety C19 C13
 //@   frameprops C14 C17
 //@   modifies @ast
+//@   requires s != nil
 //@   ensures result1 == nil && len(result0) >= 1 && result0[0].Admin
 
 //@ func (*CreateSubscriptionStatement).RequiredPrivileges
@@ -89,6 +100,7 @@ package influxql
 //@   safety C19 C13
 //@   frameprops C14 C17
 //@   modifies @ast
+//@   requires s != nil
 //@   ensures result1 == nil && len(result0) >= 1 && result0[0].Admin
 
 //@ func (*DropSubscriptionStatement).RequiredPrivileges
@@ -96,6 +108,7 @@ package influxql
 //@   safety C19 C13
 //@   frameprops C14 C17
 //@   modifies @ast
+//@   requires s != nil
 //@   ensures result1 == nil && len(result0) >= 1 && result0[0].Admin
 
 //@ func (*DropShardStatement).RequiredPrivileges
@@ -103,6 +116,7 @@ package influxql
 //@   safety C19 C13
 //@   frameprops C14 C17
 //@   modifies @ast
+//@   requires s != nil
 //@   ensures result1 == nil && len(result0) >= 1 && result0[0].Admin
 
 //@ func (*DropMeasurementStatement).RequiredPrivileges
@@ -110,6 +124,7 @@ package influxql
 //@   safety C19 C13
 //@   frameprops C14 C17
 //@   modifies @ast
+//@   requires s != nil
 //@   ensures result1 == nil && len(result0) >= 1 && result0[0].Admin
 
 //@ func (*KillQueryStatement).RequiredPrivileges
@@ -117,6 +132,7 @@ package influxql
 //@   safety C19 C13
 //@   frameprops C14 C17
 //@   modifies @ast
+//@   requires s != nil
 //@   ensures result1 == nil && len(result0) >= 1 && result0[0].Admin
 
 //@ func (*ShowUsersStatement).RequiredPrivileges
@@ -124,6 +140,7 @@ package influxql
 //@   safety C19 C13
 //@   frameprops C14 C17
 //@   modifies @ast
+//@   requires s != nil
 //@   ensures result1 == nil && len(result0) >= 1 && result0[0].Admin
 
 //@ func (*ShowGrantsForUserStatement).RequiredPrivileges
@@ -131,6 +148,7 @@ package influxql
 //@   safety C19 C13
 //@   frameprops C14 C17
 //@   modifies @ast
+//@   requires s != nil
 //@   ensures result1 == nil && len(result0) >= 1 && result0[0].Admin
 
 //@ func (*ShowShardsStatement).RequiredPrivileges
@@ -138,6 +156,7 @@ package influxql
 //@   safety C19 C13
 //@   frameprops C14 C17
 //@   modifies @ast
+//@   requires s != nil
 //@   ensures result1 == nil && len(result0) >= 1 && result0[0].Admin
 
 //@ func (*ShowShardGroupsStatement).RequiredPrivileges
@@ -145,6 +164,7 @@ package influxql
 //@   safety C19 C13
 //@   frameprops C14 C17
 //@   modifies @ast
+//@   requires s != nil
 //@   ensures result1 == nil && len(result0) >= 1 && result0[0].Admin
 
 //@ func (*ShowStatsStatement).RequiredPrivileges
@@ -152,6 +172,7 @@ package influxql
 //@   safety C19 C13
 //@   frameprops C14 C17
 //@   modifies @ast
+//@   requires s != nil
 //@   ensures result1 == nil && len(result0) >= 1 && result0[0].Admin
 
 //@ func (*ShowDiagnosticsStatement).RequiredPrivileges
@@ -159,6 +180,7 @@ package influxql
 //@   safety C19 C13
 //@   frameprops C14 C17
 //@   modifies @ast
+//@   requires s != nil
 //@   ensures result1 == nil && len(result0) >= 1 && result0[0].Admin
 
 //@ func (*ShowSubscriptionsStatement).RequiredPrivileges
@@ -166,6 +188,7 @@ package influxql
 //@   safety C19 C13
 //@   frameprops C14 C17
 //@   modifies @ast
+//@   requires s != nil
 //@   ensures result1 == nil && len(result0) >= 1 && result0[0].Admin
 
 //@ func (*DropRetentionPolicyStatement).RequiredPrivileges
@@ -237,6 +260,7 @@ package influxql
 //@   safety C19 C13
 //@   frameprops C14 C17
 //@   modifies @ast
+//@   requires s != nil
 //@   ensures result1 == nil && len(result0) == 1 && !result0[0].Admin && result0[0].Name == "" && result0[0].Privilege == WritePrivilege
 
 //@ func (DropSeriesStatement).RequiredPrivileges
@@ -258,6 +282,7 @@ package influxql
 //@   safety C19 C13
 //@   frameprops C14 C17
 //@   modifies @ast
+//@   requires s != nil
 //@   ensures result1 == nil && len(result0) == 1 && !result0[0].Admin && result0[0].Name == "" && result0[0].Privilege == ReadPrivilege
 
 //@ func (*ShowQueriesStatement).RequiredPrivileges
@@ -265,6 +290,7 @@ package influxql
 //@   safety C19 C13
 //@   frameprops C14 C17
 //@   modifies @ast
+//@   requires s != nil
 //@   ensures result1 == nil && len(result0) == 1 && !result0[0].Admin && result0[0].Name == "" && result0[0].Privilege == ReadPrivilege
 
 //@ func (*ShowDatabasesStatement).RequiredPrivileges
@@ -272,6 +298,7 @@ package influxql
 //@   safety C19 C13
 //@   frameprops C14 C17
 //@   modifies @ast
+//@   requires s != nil
 //@   ensures result1 == nil && len(result0) == 1 && !result0[0].Admin && result0[0].Name == "" && result0[0].Privilege == NoPrivileges
 
 //@ func (*ShowSeriesCardinalityStatement).RequiredPrivileges
